@@ -1,42 +1,114 @@
 /-
-  Proofs/LossesMI.lean — mutual information (Parzen window estimate) is symmetric in its two
-  images, for an arbitrary window response `win` and an arbitrary function `lg` in place of `log`.
+  Proofs/LossesMI.lean — mutual information (Parzen window estimate, optionally with a sample
+  weight = mask on the joint histogram): symmetric in its two images for an arbitrary window
+  response `win` and an arbitrary function `lg` in place of `log`; samples of weight 0 do not
+  influence it; with a 0/1 mask it is the estimate over the kept samples.
 -/
-import Deepali.Proofs.LossesBasic
+import Deepali.Proofs.LossesPointwise
 
 set_option linter.unusedSectionVars false
 
 namespace Deepali.Loss
+
+section Field
 variable {K : Type} [Field K]
 
 /-- exchanging the images transposes the joint distribution and exchanges the marginals. -/
-theorem miProbs_swap (win : K → K → K) (tiny : K) (B S : Nat) (cen x y : Nat → K) :
-    miProbs win tiny B S cen y x
-      = (fun b b' => (miProbs win tiny B S cen x y).1 b' b, (miProbs win tiny B S cen x y).2.2,
-          (miProbs win tiny B S cen x y).2.1) := by
-  unfold miProbs
-  have hh : ∀ b b', sumTo S (fun s => win (y s) (cen b) * win (x s) (cen b'))
-      = sumTo S (fun s => win (x s) (cen b') * win (y s) (cen b)) :=
-    fun b b' => sumTo_congr (fun s _ => mul_comm _ _)
-  have hn : sumTo B (fun b => sumTo B (fun b' => sumTo S (fun s => win (x s) (cen b') * win (y s) (cen b))))
-      = sumTo B (fun b => sumTo B (fun b' => sumTo S (fun s => win (x s) (cen b) * win (y s) (cen b')))) := by
-    rw [sumTo_comm]
-  simp only [hh, hn]
+theorem miProbs_swap (win : K → K → K) (tiny : K) (B S : Nat) (cen x y : Nat → K) (m : Option (Nat → K)) :
+    miProbs win tiny B S cen y x m
+      = (fun b b' => (miProbs win tiny B S cen x y m).1 b' b, (miProbs win tiny B S cen x y m).2.2,
+          (miProbs win tiny B S cen x y m).2.1) := by
+  cases m with
+  | none =>
+    unfold miProbs
+    have hh : ∀ b b', sumTo S (fun s => win (y s) (cen b) * win (x s) (cen b'))
+        = sumTo S (fun s => win (x s) (cen b') * win (y s) (cen b)) :=
+      fun b b' => sumTo_congr (fun s _ => mul_comm _ _)
+    have hn : sumTo B (fun b => sumTo B (fun b' => sumTo S (fun s => win (x s) (cen b') * win (y s) (cen b))))
+        = sumTo B (fun b => sumTo B (fun b' => sumTo S (fun s => win (x s) (cen b) * win (y s) (cen b')))) := by
+      rw [sumTo_comm]
+    simp only [hh, hn]
+  | some m =>
+    unfold miProbs
+    have hh : ∀ b b', sumTo S (fun s => win (y s) (cen b) * m s * win (x s) (cen b'))
+        = sumTo S (fun s => win (x s) (cen b') * m s * win (y s) (cen b)) :=
+      fun b b' => sumTo_congr (fun s _ => by ring)
+    have hn : sumTo B (fun b => sumTo B (fun b' => sumTo S (fun s => win (x s) (cen b') * m s * win (y s) (cen b))))
+        = sumTo B (fun b => sumTo B (fun b' => sumTo S (fun s => win (x s) (cen b) * m s * win (y s) (cen b')))) := by
+      rw [sumTo_comm]
+    simp only [hh, hn]
 
-theorem miEntropies_swap (win : K → K → K) (lg : K → K) (tiny : K) (B S : Nat) (cen x y : Nat → K) :
-    miEntropies win lg tiny B S cen y x
-      = ((miEntropies win lg tiny B S cen x y).2.1, (miEntropies win lg tiny B S cen x y).1,
-          (miEntropies win lg tiny B S cen x y).2.2) := by
+theorem miEntropies_swap (win : K → K → K) (lg : K → K) (tiny : K) (B S : Nat) (cen x y : Nat → K)
+    (m : Option (Nat → K)) :
+    miEntropies win lg tiny B S cen y x m
+      = ((miEntropies win lg tiny B S cen x y m).2.1, (miEntropies win lg tiny B S cen x y m).1,
+          (miEntropies win lg tiny B S cen x y m).2.2) := by
   unfold miEntropies
   rw [miProbs_swap]
   simp only [Prod.mk.injEq, true_and, neg_inj]
   rw [sumTo_comm]
 
 theorem miLossCore_symm (win : K → K → K) (lg : K → K) (tiny : K) (normalized : Bool) (N B S : Nat)
-    (cen x y : Nat → K) :
-    miLossCore win lg tiny normalized N B S cen x y = miLossCore win lg tiny normalized N B S cen y x := by
+    (cen x y : Nat → K) (m : Option (Nat → K)) :
+    miLossCore win lg tiny normalized N B S cen x y m = miLossCore win lg tiny normalized N B S cen y x m := by
   unfold miLossCore
   simp only [miEntropies_swap win lg tiny B S cen (fun s => x (_ * S + s))]
   simp only [add_comm]
+
+/-- samples whose weight is 0 do not influence the distributions. -/
+theorem miProbs_mask_ignored (win : K → K → K) (tiny : K) (B S : Nat) (cen x y x' y' m : Nat → K)
+    (h : ∀ s, s < S → m s ≠ 0 → x s = x' s ∧ y s = y' s) :
+    miProbs win tiny B S cen x y (some m) = miProbs win tiny B S cen x' y' (some m) := by
+  unfold miProbs
+  have hh : ∀ b b', sumTo S (fun s => win (x s) (cen b) * m s * win (y s) (cen b'))
+      = sumTo S (fun s => win (x' s) (cen b) * m s * win (y' s) (cen b')) := by
+    intro b b'
+    apply sumTo_congr
+    intro s hs
+    by_cases hm : m s = 0
+    · simp [hm]
+    · rw [(h s hs hm).1, (h s hs hm).2]
+  simp only [hh]
+
+/-- `Σ_{j < |l|} F(l[j]) = Σ_{i ∈ l} F(i)`. -/
+theorem sumTo_succ_front (n : Nat) (f : Nat → K) : sumTo (n + 1) f = f 0 + sumTo n (fun i => f (i + 1)) := by
+  induction n with
+  | zero => simp [sumTo]
+  | succ n ih => rw [sumTo, ih, sumTo]; ring
+
+theorem sumTo_list (l : List Nat) (F : Nat → K) :
+    sumTo l.length (fun j => F (l.getD j 0)) = (l.map F).sum := by
+  induction l with
+  | nil => simp [sumTo]
+  | cons a l ih =>
+    rw [List.length_cons, sumTo_succ_front]
+    simp only [List.getD_cons_zero, List.getD_cons_succ, List.map_cons, List.sum_cons, ih]
+
+end Field
+
+section Ordered
+variable {K : Type} [Field K] [LinearOrder K] [IsStrictOrderedRing K]
+
+/-- the samples kept by a 0/1 mask, in order. -/
+def kept (S : Nat) (m : Nat → K) : List Nat := (List.range S).filter (fun s => m s = 1)
+
+/-- with a 0/1 mask the weighted joint histogram — hence the joint and marginal distributions —
+    is that of the kept samples alone. -/
+theorem miProbs_mask_selected (win : K → K → K) (tiny : K) (B S : Nat) (cen x y m : Nat → K)
+    (hm : ∀ s, s < S → m s = 0 ∨ m s = 1) :
+    miProbs win tiny B S cen x y (some m)
+      = miProbs win tiny B (kept S m).length cen (fun j => x ((kept S m).getD j 0))
+          (fun j => y ((kept S m).getD j 0)) none := by
+  unfold miProbs
+  have hh : ∀ b b', sumTo S (fun s => win (x s) (cen b) * m s * win (y s) (cen b'))
+      = sumTo (kept S m).length (fun j => win (x ((kept S m).getD j 0)) (cen b) * win (y ((kept S m).getD j 0)) (cen b')) := by
+    intro b b'
+    rw [sumTo_list (kept S m) (fun s => win (x s) (cen b) * win (y s) (cen b'))]
+    unfold kept
+    rw [← (binary_mask_sum S (fun s => win (x s) (cen b) * win (y s) (cen b')) m hm).1]
+    exact sumTo_congr (fun s _ => by ring)
+  simp only [hh]
+
+end Ordered
 
 end Deepali.Loss
